@@ -165,8 +165,9 @@ class Out:
 
 
 class UnitBuilder:
-    def __init__(self, repo, template_path):
+    def __init__(self, repo, template_path, twin=False):
         self.repo = repo
+        self.twin = twin
         self.tpath = template_path
         self.srcs = {}
         self.out = Out()
@@ -298,13 +299,15 @@ class UnitBuilder:
         for blk in blocks:
             anchor = blk['anchor']
             text = blk['text']
-            origin = ('spec', os.path.basename(self.tpath), blk['line'])
+            origin = ('spec', blk.get('tname') or os.path.basename(self.tpath), blk['line'])
             order += 1
             try:
                 for pos, txt in self._resolve(B, anchor, text, where):
                     ins.append((pos, order, txt, origin))
             except rsx.ScanError as e:
                 raise BuildError('%s: %s' % (where, e))
+        if self.twin and any(b['anchor'] == 'spec' for b in blocks):
+            ins.append((1, -1, '\n proof { assert(false); } // TWIN-VACUITY\n', ('spec', 'twin', 0)))
         ins.sort(key=lambda t: (t[0], t[1]))
 
         out_start = len(self.out.lines) + 1
@@ -314,7 +317,7 @@ class UnitBuilder:
         self.out.add(sig + '\n', lambda k: ('repo', f, sig_line0 + k))
         for blk in blocks:
             if blk['anchor'] == 'spec':
-                self.out.add(blk['text'], (lambda L: (lambda k: ('spec', os.path.basename(self.tpath), L + 1 + k)))(blk['line']))
+                self.out.add(blk['text'], (lambda L, T: (lambda k: ('spec', T, L + 1 + k)))(blk['line'], blk.get('tname') or os.path.basename(self.tpath)))
         # body with insertions
 
         def repo_origin(offset):
@@ -431,19 +434,47 @@ class UnitBuilder:
         return B.loops[n - 1]
 
     # ---- template -------------------------------------------------------
+    def _read_template(self, path, export_only=False, depth=0):
+        """-> list of (text, tname, lineno); `//@ include f` is expanded to f's exported region."""
+        if depth > 4:
+            raise BuildError('include depth')
+        tname = os.path.basename(path)
+        res = []
+        exporting = not export_only
+        for i, ln in enumerate(open(path, encoding='utf-8').read().split('\n')):
+            st = ln.strip()
+            if st.startswith('//@ begin-export'):
+                exporting = True
+                continue
+            if st.startswith('//@ end-export'):
+                exporting = not export_only
+                continue
+            if st.startswith('//@ include '):
+                if exporting:
+                    inc = st.split()[2]
+                    res += self._read_template(os.path.join(os.path.dirname(path), inc), True, depth + 1)
+                    self.includes.append(inc)
+                continue
+            if exporting:
+                res.append((ln, tname, i + 1))
+        return res
+
     def build(self):
-        tl = open(self.tpath, encoding='utf-8').read().split('\n')
+        self.includes = []
+        tl = self._read_template(self.tpath)
         i = 0
-        tname = os.path.basename(self.tpath)
         while i < len(tl):
-            ln = tl[i]
+            ln, tname, L = tl[i]
             st = ln.strip()
             if st.startswith('//@'):
                 d = st[3:].strip()
                 toks = d.split()
+                if toks[0] in ('unit', 'owns'):
+                    i += 1
+                    continue
                 if toks[0] == 'item':
                     opts = dict(t.split('=', 1) for t in toks[4:] if '=' in t)
-                    self.emit_item(toks[1], toks[2], toks[3], opts, i + 1)
+                    self.emit_item(toks[1], toks[2], toks[3], opts, L)
                     i += 1
                     continue
                 if toks[0] == 'const':
@@ -460,11 +491,14 @@ class UnitBuilder:
                     blocks = []
                     i += 1
                     cur = None
+                    closed = False
                     while i < len(tl):
-                        s2 = tl[i].strip()
+                        ln2, tname2, L2 = tl[i]
+                        s2 = ln2.strip()
                         if s2.startswith('//@'):
                             d2 = s2[3:].strip()
                             if d2 == 'end':
+                                closed = True
                                 break
                             if d2.startswith('rewrite '):
                                 t2 = d2.split()
@@ -473,40 +507,39 @@ class UnitBuilder:
                             elif d2.startswith('sigsub ') or d2.startswith('bodysub '):
                                 mm = re.match(r'(sigsub|bodysub)\s+"(.*)"\s+=>\s+"(.*)"\s*$', d2)
                                 if not mm:
-                                    raise BuildError('%s:%d bad sub directive' % (tname, i + 1))
+                                    raise BuildError('%s:%d bad sub directive' % (tname2, L2))
                                 opts[mm.group(1)].append((mm.group(2), mm.group(3)))
                                 cur = None
                             elif d2.startswith('attrs '):
                                 opts['attrs'] = d2[6:].strip()
                                 cur = None
                             elif d2 == 'spec':
-                                cur = dict(anchor='spec', text='', line=i + 1)
+                                cur = dict(anchor='spec', text='', line=L2, tname=tname2)
                                 blocks.append(cur)
                             elif d2.startswith('at '):
-                                cur = dict(anchor=d2[3:].strip(), text='', line=i + 1)
+                                cur = dict(anchor=d2[3:].strip(), text='', line=L2, tname=tname2)
                                 blocks.append(cur)
                             else:
-                                raise BuildError('%s:%d unknown directive %s' % (tname, i + 1, d2))
+                                raise BuildError('%s:%d unknown directive %s' % (tname2, L2, d2))
                         else:
                             if cur is not None:
-                                cur['text'] += tl[i] + '\n'
+                                cur['text'] += ln2 + '\n'
                             elif s2:
-                                raise BuildError('%s:%d text outside a block' % (tname, i + 1))
+                                raise BuildError('%s:%d text outside a block' % (tname2, L2))
                         i += 1
-                    else:
+                    if not closed:
                         raise BuildError('%s: fn block not closed' % tname)
-                    self.emit_fn(f, path, opts, blocks, i + 1)
+                    self.emit_fn(f, path, opts, blocks, L)
                     i += 1
                     continue
-                raise BuildError('%s:%d unknown directive %s' % (tname, i + 1, d))
-            L = i + 1
-            self.out.add(ln + '\n', lambda k, L=L: ('spec', tname, L + k))
+                raise BuildError('%s:%d unknown directive %s' % (tname, L, d))
+            self.out.add(ln + '\n', lambda k, L=L, tname=tname: ('spec', tname, L + k))
             i += 1
         text = self.out.finish()
         return text
 
     def meta(self):
-        return dict(template=self.tpath, functions=self.functions, items=self.items,
+        return dict(template=self.tpath, functions=self.functions, items=self.items, includes=getattr(self, 'includes', []),
                     rewrite_hits=self.rewrite_hits, origin=self.out.origin)
 
 
